@@ -506,6 +506,43 @@ def tmOfPy : Py → Option (Tm String)
       | _, _, _ => none
   | _ => none
 
+def nmS (n : Nat) : String := "e" ++ toString n
+
+open Bptk.Py in
+/-- net-flow text with the parentheses `StockExpressions` writes (`()` nodes) -/
+def netPyP : List String → List String → Py
+  | [], [] => .num "0"
+  | i :: is, [] => .paren (sumPy .prev (memoPy i .prev) is)
+  | [], o :: os => .paren (.bin .mul (.neg (.num "1")) (.paren (sumPy .prev (memoPy o .prev) os)))
+  | i :: is, o :: os =>
+    .paren (.bin .sub (sumPy .prev (memoPy i .prev) is) (.paren (sumPy .prev (memoPy o .prev) os)))
+
+open Bptk.Py in
+/-- the stock equation exactly as emitted:
+`( (init) if ( t <= self.starttime ) else (self.memoize('s',t-self.dt) + self.dt * NET) )` -/
+def skelPyP (s : String) (init : Py) (ins outs : List String) : Py :=
+  .paren (.ite (.paren init) (.paren (.bin .le (.name "t") (selfAttr "starttime")))
+    (.paren (.bin .add (memoPy s .prev) (.bin .mul (selfAttr "dt") (netPyP ins outs)))))
+
+def flowIxs (from_ n : Nat) : List Nat := (List.range n).map (· + from_)
+
+open Bptk.Py in
+/-- one probed skeleton `(nin, nout, tokens)`: the stock is `e0` with initial value `7.5`, inflows
+`e1..`, outflows after them.  The emitted tokens are exactly the intended text, that text is
+well-levelled (so it parses to the intended tree, `parse_print`), and the tree denotes the `Tm` code that
+`compile` assigns to such a stock. -/
+def skeletonOK (e : Nat × Nat × List Tok) : Bool :=
+  let ins := flowIxs 1 e.1
+  let outs := flowIxs (1 + e.1) e.2.1
+  let p := skelPyP (nmS 0) (.num "7.5") (ins.map nmS) (outs.map nmS)
+  decide (e.2.2 = pr p) && WLb 0 p &&
+    decide (tmOfPy (erase p) = some (stockTm 0 (.lit "7.5") ins outs))
+
+open Bptk.Py in
+def skeletonsOK (sk : List (Nat × Nat × List Tok)) : Bool :=
+  sk.all skeletonOK &&
+    (List.range 4).all (fun i => (List.range 4).all (fun o => sk.any (fun e => e.1 == i && e.2.1 == o)))
+
 /-- literals and tables replaced by their text / dropped: the shape of the code, for comparison with the
 denotation of the emitted Python -/
 def Tm.shape (f : α → String) : Tm α → Tm String
